@@ -434,3 +434,13 @@ class Outcome:
 
 def case_hash(obj):
     return hashlib.sha1(json.dumps(obj, sort_keys=True, default=str).encode()).hexdigest()[:16]
+
+
+def proofs_verdict(out, proofs, build, prop_file):
+    """A broken proof obligation is a violation by itself: with a concrete failing input if the
+    run found one, otherwise naming the theorem file that no longer checks."""
+    if proofs is not None and not proofs.ok:
+        if not any(v["found_input"] for v in out.violations):
+            out.violation(f"proof obligations of Properties/{prop_file} no longer check:\n" + proofs.log[-2000:],
+                          {"theorems": proofs.theorems, "translator": build.translator},
+                          tags={"proof-broken"}, found_input=False)
